@@ -183,6 +183,9 @@ impl BatchAppSpec {
                 interpolate: lossy || (v / 9) % 2 == 1,
                 w_energy: 1.0,
                 model: if lossy { 1 } else { ((v / 2) % 2) as u8 },
+                // a quarter of the collision-free energy configurations drive a battery vehicle
+                // whose starting charge comes from each query
+                bev: !lossy && v % 4 == 3,
             });
         }
         a.input_plugins = self.input_plugins();
@@ -315,6 +318,10 @@ pub fn query_json(app: &BatchAppSpec, q: &QuerySpec, qid: usize) -> Value {
     }
     if app.kind >= 8 {
         o.insert("model_name".into(), json!(ENERGY_VEHICLE));
+        if app.kind == 8 && app.variant % 4 == 3 {
+            // per-query starting charge of the battery vehicle
+            o.insert("starting_soc_percent".into(), json!(20 + (qid * 13) % 70));
+        }
     }
     // load balancer column
     if app.kind == 4 {
